@@ -41,7 +41,8 @@ def run_one(patch, props, tier="quick", baseline=False):
 
 def main():
     if sys.argv[1] == "--all":
-        cat = os.path.join(VERIF, "selftest", "catalogue.txt")
+        tier = ([a.split('=',1)[1] for a in sys.argv if a.startswith('--tier=')] or ["quick"])[0]
+        cat = os.path.join(VERIF, "selftest", "catalogue_thorough.txt" if tier == "thorough" else "catalogue.txt")
         out = {}
         for line in open(cat):
             line = line.split("#")[0].strip()
@@ -51,10 +52,10 @@ def main():
             only = [a.split('=',1)[1] for a in sys.argv if a.startswith('--only=')]
             if only and not any(o in patch for o in only[0].split(',')):
                 continue
-            res = run_one(os.path.join(VERIF, patch), props.split(","), baseline="--baseline" in sys.argv)
+            res = run_one(os.path.join(VERIF, patch), props.split(","), tier, baseline="--baseline" in sys.argv)
             out[patch] = res
             print(patch, json.dumps(res))
-        rp = os.path.join(VERIF, "selftest", "results.json")
+        rp = os.path.join(VERIF, "selftest", "results_thorough.json" if tier == "thorough" else "results.json")
         old = json.load(open(rp)) if os.path.exists(rp) else {}
         old.update(out)
         json.dump(old, open(rp, "w"), indent=1, sort_keys=True)
